@@ -3,27 +3,36 @@
 # run.sh <Cxx> replay <file>           replay a stored violation
 # run.sh build                         build only (used by setup)
 set -u
-cd "$(dirname "$0")/mc" || exit 2
-export GOFLAGS=-mod=mod GOPROXY=off GOCACHE="${GOCACHE:-/verif/.gocache}" VERIF_ROOT="${VERIF_ROOT:-/verif}"
+ROOT="$(cd "$(dirname "$0")" && pwd)"   # /verif, or a snapshot of it (vp run): binaries, scratch and evidence stay with the copy that runs
+cd "$ROOT/mc" || exit 2
+export GOFLAGS=-mod=mod GOPROXY=off GOCACHE="${GOCACHE:-/verif/.gocache}" VERIF_ROOT="${VERIF_ROOT:-$ROOT}"
 unset GOSUMDB GOTOOLCHAIN
-mkdir -p /verif/.bin /verif/.scratch
-cp /repo/go.sum go.sum 2>/dev/null
-if ! go build -tags verif -o /verif/.bin/verif ./cmd/verif 2>/verif/.scratch/build.log; then
+mkdir -p $ROOT/.bin $ROOT/.scratch
+# The registered commands always explore /repo. VERIF_REPO (used only for background experiments, e.g. `vp run
+# --with-repo`) points the build at another checkout through an alternative go.mod.
+REPO="${VERIF_REPO:-/repo}"
+MODFLAG=""
+if [ "$REPO" != /repo ]; then
+  sed "s|=> /repo|=> $REPO|" go.mod > $ROOT/.scratch/alt.mod; cp "$REPO/go.sum" $ROOT/.scratch/alt.sum
+  MODFLAG="-modfile=$ROOT/.scratch/alt.mod"
+fi
+cp "$REPO/go.sum" go.sum 2>/dev/null
+if ! go build $MODFLAG -tags verif -o $ROOT/.bin/verif ./cmd/verif 2>$ROOT/.scratch/build.log; then
   # a tree that does not compile with the harness cannot be explored; say so loudly (exit 2 = harness error, never a verdict)
-  echo "HARNESS-ERROR: build failed:"; cat /verif/.scratch/build.log; exit 2
+  echo "HARNESS-ERROR: build failed:"; cat $ROOT/.scratch/build.log; exit 2
 fi
 build_c05() {
   # C05 needs scheduling points inside the poller: rewrite the working-tree copies of internal/poll_linux.go and
   # internal/eventfd.go (nothing under /repo is touched) and build through an overlay that also adds the shim package.
-  go build -o /verif/.bin/xform ./cmd/xform 2>>/verif/.scratch/build.log || return 1
-  rm -rf /verif/.scratch/overlay; /verif/.bin/xform /repo /verif/.scratch/overlay >/verif/.scratch/xform.log 2>&1 || { cat /verif/.scratch/xform.log; return 1; }
-  go build -overlay /verif/.scratch/overlay/overlay.json -tags "verif c05" -o /verif/.bin/verif-c05 ./cmd/verif 2>>/verif/.scratch/build.log || return 1
-  go build -race -gcflags=all=-d=checkptr=0 -o /verif/.bin/c05race ./cmd/c05race 2>>/verif/.scratch/build.log || echo "note: -race build unavailable" >>/verif/.scratch/build.log
+  go build -o $ROOT/.bin/xform ./cmd/xform 2>>$ROOT/.scratch/build.log || return 1
+  rm -rf $ROOT/.scratch/overlay; $ROOT/.bin/xform "$REPO" $ROOT/.scratch/overlay >$ROOT/.scratch/xform.log 2>&1 || { cat $ROOT/.scratch/xform.log; return 1; }
+  go build $MODFLAG -overlay $ROOT/.scratch/overlay/overlay.json -tags "verif c05" -o $ROOT/.bin/verif-c05 ./cmd/verif 2>>$ROOT/.scratch/build.log || return 1
+  go build $MODFLAG -race -gcflags=all=-d=checkptr=0 -o $ROOT/.bin/c05race ./cmd/c05race 2>>$ROOT/.scratch/build.log || echo "note: -race build unavailable" >>$ROOT/.scratch/build.log
   return 0
 }
-if [ "${1:-}" = build ]; then build_c05 || { echo "HARNESS-ERROR: C05 build failed:"; cat /verif/.scratch/build.log; exit 2; }; exit 0; fi
+if [ "${1:-}" = build ]; then build_c05 || { echo "HARNESS-ERROR: C05 build failed:"; cat $ROOT/.scratch/build.log; exit 2; }; exit 0; fi
 if [ "${1:-}" = C05 ]; then
-  build_c05 || { echo "HARNESS-ERROR: C05 build failed:"; cat /verif/.scratch/build.log; exit 2; }
-  exec /verif/.bin/verif-c05 "$@"
+  build_c05 || { echo "HARNESS-ERROR: C05 build failed:"; cat $ROOT/.scratch/build.log; exit 2; }
+  exec $ROOT/.bin/verif-c05 "$@"
 fi
-exec /verif/.bin/verif "$@"
+exec $ROOT/.bin/verif "$@"
